@@ -52,7 +52,7 @@ package mcp
 
 // The package initializer establishes the package invariants (checked at the assignment) and the engine's
 // frame check shows the variables named in them are never assigned again, mutated or aliased.
-//@ func init [C07, C20]
+//@ func init [C07, C20, C01, C04]
 
 // ---------------------------------------------------------------------------------------------
 // C06: initialization gate and per-request metadata
@@ -290,6 +290,7 @@ package mcp
 //@   ensures @budget s.nBytes <= s.maxBytes + len(data)
 
 //@ global-invariant ErrEventsPurged != nil
+//@ global-invariant ErrConnectionClosed != nil
 
 // After, step 1 (under the lock): decide between purged / unknown / the exact suffix, and copy it.
 // All index arithmetic in this contract is mathematical (unbounded); the code's is 64-bit.
@@ -467,3 +468,40 @@ package mcp
 //@   track context.WithCancel as withCancel
 //@   modifies *
 //@   requires cancelPtr != nil
+
+// ---------------------------------------------------------------------------------------------
+// C01 / C04: awaiting a call, and abandoning it when the caller's context ends
+// ---------------------------------------------------------------------------------------------
+// (default debug setting: blockingcancelnotify unset)
+//@ func call [C01, C04]
+//@   track Call as start
+//@   track Await as await
+//@   track Retire as retire
+//@   track Notify as notifyInline
+//@   track cancelCall as legacyCancel
+//@   track go:call$1 as spawnNotify
+//@   track ctx.Err as ctxErr
+//@   ghost awaitErr := callResult(await, 1, 0)
+//@   ghost closing := errIs(awaitErr, jsonrpc2.ErrClientClosing) || errIs(awaitErr, jsonrpc2.ErrServerClosing)
+//@   modifies *
+//@   requires blockingcancelnotify != "1" && conn != nil
+//@   ensures @one-call-awaited calls(start) == 1 && calls(await) == 1 && callArg(await, 1, 0) == callResult(start, 1, 0)
+//@   ensures @closed-connection-is-identified closing ==> $result != nil && errIs($result, ErrConnectionClosed) && calls(retire) == 0
+//@   ensures @abandoned-call-is-retired-first !closing && callResult(ctxErr, 1, 0) != nil ==> calls(retire) == 1 && callArg(retire, 1, 1) == callResult(start, 1, 0)
+//@        && calls(spawnNotify) == 1 && calls(notifyInline) == 0 && calls(legacyCancel) == 0
+//@   ensures @no-cancel-traffic-otherwise closing || callResult(ctxErr, 1, 0) == nil ==> calls(retire) == 0 && calls(spawnNotify) == 0 && calls(notifyInline) == 0
+//@   ensures @peer-error-is-returned !closing && callResult(ctxErr, 1, 0) == nil && awaitErr != nil ==> $result != nil && errIs($result, awaitErr)
+//@   ensures @success !closing && callResult(ctxErr, 1, 0) == nil && awaitErr == nil ==> $result == nil
+
+// The best-effort cancellation notice: sent with the caller's values but not its cancellation, bounded by the
+// notification timeout, referencing exactly the abandoned call.
+//@ func call$1 [C04]
+//@   requires conn != nil
+//@   track context.WithoutCancel as detach
+//@   track context.WithTimeout as bound
+//@   track Notify as notify
+//@   modifies *
+//@   assert at call context.WithoutCancel: @keeps-caller-values $0 == ctx
+//@   assert at call context.WithTimeout: @bounded-and-detached $0 == callResult(detach, 1, 0) && $1 == notifyCancellationTimeout
+//@   assert at call Notify: @notice-uses-bounded-context $0 == conn && $1 == callResult(bound, 1, 0) && $2 == notificationCancelled
+//@   ensures @one-notice calls(notify) == 1 && calls(detach) == 1 && calls(bound) == 1
